@@ -4,6 +4,7 @@ import ScVerif.C13.Async
 import ScVerif.C13.Ctx
 import ScVerif.C13.Errs
 import ScVerif.C13.Select
+import ScVerif.C13.Invoke
 import ScVerif.C13.Unwrap
 import ScVerif.C13.Opts
 /-! Driver handler for C13: parses one request line, runs the model, prints the canonical answer.
@@ -199,6 +200,12 @@ def showSRes : Wrap.SRes → String
   | .eof => "eof"
   | .ctxErr a => showAbort a
 
+/-- What Invoke handed back: `<RecvMsg's result>/h<header option>/t<trailer option>`; `<error>` followed by two dashes instead of the
+options when SendMsg failed (collectMetadata not run). -/
+def showIRes : Wrap.IRes → String
+  | .early e => showEv e ++ "/-/-"
+  | .full r h t => showRes r ++ "/h" ++ showMD h ++ "/t" ++ showMD t
+
 def showResults (rs : List String) : String :=
   if rs.isEmpty then "blocks" else ";".intercalate rs.eraseDups
 
@@ -223,6 +230,10 @@ def handleSelect (call setup offer taker : String) : Option String := do
   | "send" => pure (showResults ((Wrap.sendResults c).map showEv))
   | "header" => pure (showResults ((Wrap.headerResults w).map fun md => "h" ++ showMD md))
   | "trailer" => pure ("t" ++ showMD (Wrap.trailer w))
+  -- the whole of `wrapper.Invoke` with the stream frozen in this state (Invoke.lean): the caller's goroutine inside
+  -- RecvMsg (the handler has taken the request) / at the start of SendMsg
+  | "invoke" => pure (showResults ((Wrap.frozen .recv c).map showIRes))
+  | "invoke0" => pure (showResults ((Wrap.frozen .send c).map showIRes))
   | _ => none
 
 def handleOpt (toks : List String) : Option String :=
